@@ -5,7 +5,7 @@
            | LV <RC|SC> { | <lvop> }                          lvop ::= A r v | M r a b | D r a b | P r | N r | T d
    obs   ::= OK { / I cnt {f s} { M i ( NONE | T t { K a ( S v mono | L v valid ) } ) } }      for OBS
            | OK { P L v valid }                                                                  for LV *)
-From V Require Export C17.Spec C17.SpecRace.
+From V Require Export C17.Spec C17.SpecRace C17.Lts.
 Local Open Scope Z_scope.
 
 Inductive case :=
@@ -283,6 +283,9 @@ Definition parse_event (l : list tok) : list ev :=
   | [TZ t; n; TZ r] =>
       if is_tag "bc" n then [EBC t r] else if is_tag "ec" n then [EEC t r]
       else if is_tag "bx" n then [EBX t (znat r)] else if is_tag "rx" n then [ERX t (znat r)] else []
+  | [TZ t; n; TT _] =>
+      (* the only verif::mutex of the shimmed binary is the registry's callbacks_m_ (spin locks log xchg / st) *)
+      if is_tag "lock" n then [ELock t] else if is_tag "unlock" n then [EUnlock t] else []
   | [TZ t; n; TZ i; TZ f; TZ s] =>
       let k := (znat i, f, s) in
       if is_tag "call" n then [ECall t k] else if is_tag "done" n then [EDone t k]
@@ -294,9 +297,15 @@ Definition parse_history (tr : list tok) : list ev := flat_map parse_event (spli
 
 Definition is_race (main : list tok) : bool := match main with t :: _ => is_tag "ORACE" t | [] => false end.
 
+(* ORACE: the lock-granularity acceptor of Lts.v replays the implementation's history event by event *)
 Definition run_model (l : list tok) : list tok :=
-  let '(main, _) := cut_bars l in
-  if is_race main then (match parse_race main with Some _ => [tag "OK"] | None => bad_case end) else run_model_seq main.
+  let '(main, tr) := cut_bars l in
+  if is_race main then
+    match parse_race main with
+    | Some _ => match first_rejected linit (parse_history tr) with None => [tag "OK"] | Some n => [tag "REJECT"; tnat n] end
+    | None => bad_case
+    end
+  else run_model_seq main.
 
 Definition run_spec (l obs : list tok) : list tok :=
   let '(main, tr) := cut_bars l in
@@ -304,6 +313,7 @@ Definition run_spec (l obs : list tok) : list tok :=
     match parse_race main with
     | Some (init, threads) =>
         spec_race init threads (match obs with [t] => is_tag "OK" t | _ => false end) (parse_history tr)
+        ++ check (is_none (first_rejected linit (parse_history tr))) "registry_lock_protocol:history_rejected"
     | None => bad_case
     end
   else run_spec_seq main obs.
